@@ -7,6 +7,10 @@ REPO="${1:-${VERIF_REPO:-/repo}}"
 exec 9>"$V/.build.lock"; flock 9
 mkdir -p "$V/_build"
 LOG="$V/_build/build.log"; : > "$LOG"
+# the caller's private copies of gen.json / build.log, made while the lock is still held (checks may run in parallel)
+if [ -n "$VERIF_BUILD_OUT" ]; then
+  trap 'cp "$V/_build/gen.json" "$VERIF_BUILD_OUT.gen.json" 2>/dev/null; cp "$LOG" "$VERIF_BUILD_OUT.log" 2>/dev/null' EXIT
+fi
 rc=0
 /venv/bin/python "$V/harness/gen_tables.py" "$REPO" "$V/coq/Gen" > "$V/_build/gen.json" 2>>"$LOG" || rc=2
 DEPS=$(/venv/bin/python "$V/tools/mkextract.py") || exit 3
